@@ -37,7 +37,7 @@ func bigStruct(r *kernel.Run, approxBytes int) *structpb.Struct {
 	return s
 }
 
-var nearMissProtos = []string{"v1-nodee-fetch-node-creds-lookalike", "h2", "http/1.1", "boundary-worker", "V1-NODEE-AUTHENTICATE-NODE-00-AAAA", "v1-nodee-authenticate-nod", "xv1-nodee-authenticate-node-", "v1-nodee-", "v1_nodee_fetch_node_creds_", "v1-nodee-certificate-preferenc", "__AUTH__", "__UNAUTH__", "é-proto", "a"}
+var nearMissProtos = []string{"v1-nodee-fetch-node-creds-lookalike", "myapp+v1-nodee-certificate-preference-hint", "h2", "http/1.1", "boundary-worker", "V1-NODEE-AUTHENTICATE-NODE-00-AAAA", "v1-nodee-authenticate-nod", "xv1-nodee-authenticate-node-", "v1-nodee-", "v1_nodee_fetch_node_creds_", "v1-nodee-certificate-preferenc", "__AUTH__", "__UNAUTH__", "é-proto", "a"}
 
 func drawExtras(tp *kernel.Tape) []string {
 	switch tp.Draw(6) {
